@@ -88,14 +88,30 @@ def run(ctx):
     n_oblig = n_proved = 0
     seen = set()
     systems = G.SYSTEMS
+    only = os.environ.get("VERIF_C02_ONLY")          # development aid (mutation testing of one system); never set by ./check
+    if only:
+        systems = [s for s in G.SYSTEMS if s["name"] in only.split(",")]
+        base = {b for b in base if b.split(".")[0] in only.split(",")}
     if ctx.replay:
         rp = json.load(open(ctx.replay))
         case = rp.get("case") or {}
         systems = [s for s in G.SYSTEMS if s["name"] == case.get("system")] or G.SYSTEMS
-    for sysd in systems:
+    err = G.build_base([s["name"] for s in systems], log)
+    if err:
+        ctx.breaks.append({"what": "C02: " + err[:200], "detail": err})
+        return
+    if ctx.tier == "thorough" and not ctx.replay:
+        G.force_recheck()     # every generated file is recompiled: all per-label theorems re-checked by the kernel
+    # regenerate + re-check the systems concurrently (bounded: 4 coqc at a time)
+    from concurrent.futures import ThreadPoolExecutor
+    def one(sysd):
         info = G.gen_system(sysd)
         if not info["errors"]:
             G.check_system(info, log)
+        return info
+    with ThreadPoolExecutor(max_workers=4) as ex:
+        infos = list(ex.map(one, systems))
+    for sysd, info in zip(systems, infos):
         st = {"labels_total": len(info["labels"]), "proved_by_equiv_check": 0, "differential_only": [],
               "not_translated": [], "errors": info["errors"][:5]}
         for e in info["errors"]:
@@ -124,7 +140,7 @@ def run(ctx):
                 ctx.failures.append({"signature": "step-differs:%s.%s.%s" % (sysd["name"], m.get("process"), m.get("label")),
                                      "what": "replayed walk still distinguishes the two models", "case": case, "obs": m.get("go"), "exp": m.get("tla")})
         elif walkable and (broken or st["differential_only"] or corpus_walks(sysd["name"]) or ctx.tier == "thorough"):
-            n, steps = (40, 120) if ctx.tier == "quick" else (400, 300)
+            n, steps = ((40 if broken else 8), 120) if ctx.tier == "quick" else (300, 300)
             cover, err = search(ctx, info, sysd, broken, log, n, steps)
             st["differential_walk"] = {"walks": n, "max_steps": steps, "committed_steps_per_label": cover, "error": err}
         per_system[sysd["name"]] = st
@@ -144,6 +160,14 @@ def run(ctx):
     ctx.extra["per_system"] = per_system
     ctx.extra["coq_log"] = log[-40:]
     ctx.samples = [{"label": l, "status": "obligation discharged" if l in base else "see per_system"} for l in sorted(seen)[:4]]
+
+
+def setup():
+    """./check --setup: cold regeneration and compilation of every system (about 4 minutes on 16 cores)"""
+    ctx = vlib.Ctx(ID, "quick", 0)
+    ctx.replay = None
+    ctx.coq_ok = True
+    run(ctx)
 
 
 MANIFEST = {
